@@ -14,6 +14,7 @@ context relies on.
 
 import contextvars
 import gc
+import os
 import sys
 import threading
 import types
@@ -36,6 +37,28 @@ class HarnessError(Exception):
 
 class SimAbort(BaseException):
     """Sticky unwinding of an actor (step budget exceeded, deadlock)."""
+
+
+class ChildWouldBlock(BaseException):
+    """In a child forked out of a running simulation (it has only the forking thread): the thread would have to
+    wait for something only a thread of the parent could release."""
+
+
+def _after_fork_in_child():
+    # Registered before eliot is imported, so it runs before any at-fork handler of eliot's: from the first
+    # line the child executes, the scheduler of the run it was forked out of must not try to hand the baton to
+    # threads that do not exist here.
+    s = _CURRENT
+    if s is not None:
+        s.forked_child = True
+        s.p_switch = 0.0
+        del s.observers[:]
+
+
+try:
+    os.register_at_fork(after_in_child=_after_fork_in_child)
+except AttributeError:      # pragma: no cover
+    pass
 
 
 class Actor(object):
@@ -93,6 +116,7 @@ class Sched(object):
         self.abort = None           # sticky reason -> SimAbort at every line event
         self.abort_info = None
         self.observers = []         # callables(sched, actor, tag) run at every yield point
+        self.forked_child = False   # set in a child forked out of this run (see _after_fork_in_child)
         self.all_done = _real_Event()
         self.seq = 0                # global event sequence number (stamps)
         self.probes = {}
@@ -202,7 +226,7 @@ class Sched(object):
     # ------------------------------------------------------------ yield points
     def yield_point(self, tag):
         a = self.by_ident.get(get_ident())
-        if a is None:
+        if a is None or self.forked_child:
             return
         if self.abort is not None:
             raise SimAbort(self.abort)
@@ -224,7 +248,7 @@ class Sched(object):
     def force_yield(self, tag="pause"):
         """Explicit pause op: switch with probability 1/2 if anyone can run."""
         a = self.by_ident.get(get_ident())
-        if a is None:
+        if a is None or self.forked_child:
             return
         self.steps += 1
         for ob in self.observers:
@@ -237,6 +261,8 @@ class Sched(object):
     def block_on(self, obj):
         """Current actor cannot proceed until ``wake(obj)``."""
         a = self.by_ident.get(get_ident())
+        if self.forked_child:
+            raise ChildWouldBlock("waiting for %r, which only a thread of the parent process could release" % (obj,))
         if a is None:
             raise HarnessError("blocking outside an actor")
         a.state = BLOCKED
@@ -399,6 +425,11 @@ class SimLock(object):
     def locked(self):
         return self._locked
 
+    def _at_fork_reinit(self):
+        # what the real lock types offer (and the stdlib uses) to make a lock usable again in a forked child
+        self._locked = False
+        self._owner = None
+
     def __enter__(self):
         self.acquire()
         return True
@@ -442,6 +473,10 @@ class SimRLock(object):
             s.block_on(self)
         self._owner, self._count = me, 1
         return True
+
+    def _at_fork_reinit(self):
+        self._owner = None
+        self._count = 0
 
     def release(self):
         if self._owner is None:
@@ -584,6 +619,10 @@ class SimCondition(object):
 
     def __exit__(self, *a):
         return self._lock.__exit__(*a)
+
+    def _at_fork_reinit(self):
+        self._lock._at_fork_reinit()
+        del self._waiters[:]
 
     def _release_all(self):
         """Give the lock up completely (whatever its recursion depth); returns how to restore it."""
